@@ -88,7 +88,16 @@ func verifH_C15_lru() {
 	}
 	verifLRUCompare(lru, m)
 	for step := 0; step < d; step++ {
-		switch verifChoice("op", 4) {
+		switch verifChoice("op", 5) {
+		case 4: // the same page object is stored again under its key (fileStore.update does this on every flush)
+			if len(m.vals) == 0 {
+				verifAssume(false)
+			}
+			j := verifChoice("which", len(m.vals))
+			k, n := m.keys[j], m.vals[j]
+			err := fs.setCache(k, n)
+			verifAssert(err == nil, "restore-same-page-ok")
+			verifAssert(m.set(k, n), "restore-same-page-model")
 		case 0: // set through fileStore.setCache
 			k := verifU64("key")
 			n := &btreeNode{dirty: verifBool("dirty")}
